@@ -357,11 +357,15 @@ def profile_for(pid, tier):
         G["root_kinds"] = {"static": 5, "dimap": 1, "closure": 1, "vmap": 2, "scan": 2, "switch": 3, "or_else": 1}
         G["nest"] = 0.7
         P["oob_index"] = 0.2
-        P["ops"].update({"index_edit": 6, "static_edit": 5})
+        P["ops"].update({"index_edit": 10, "static_edit": 5})
+        P["n_steps"] = (5, 8) if tier == "quick" else (6, 12)
         P["rejuv"] = 0.8
         P["index_static"] = 0.8
-        G["root_kinds"].update({"vmap": 4, "repeat": 2})
-        G["vec_static_inner"] = 0.7
+        G["root_kinds"].update({"vmap": 6, "repeat": 3, "scan": 4})
+        G["vec_static_inner"] = 0.8
+        G["kernel_normal"] = 0.8
+        G["scan_editable"] = 0.8
+        G["lens"] = [2, 3, 3, 2]
     elif pid == "C33":
         P["ops"].update({"abort": 8})
         G["kinds"].update({"switch": 6, "or_else": 2, "vmap": 5})
